@@ -498,6 +498,10 @@ def encode(history, seed=0, ref=None, index=False, filler_phase=0):
         for ci in range(plan['chunks']):
             chunk_starts.append(start + LEAD_IN + len(meta) + pad + len(raw))
             raw += encode_chunk(plan, ci, seg, extents, start + LEAD_IN + len(meta) + pad + len(raw))
+        if seg.get('short'):
+            # 'less data than expected': the raw data stops `short` bytes early and the lead-in says so (the segment is complete by
+            # its own offsets; what its last chunk means is not defined by the format - only differential oracles use such files)
+            raw = raw[:max(0, len(raw) - seg['short'])]
         toc = 0
         if seg.get('meta', True):
             toc |= TOC_META
